@@ -2,7 +2,7 @@
 From Coq Require Import List NArith ZArith Bool.
 Import ListNotations.
 From Emu.Common Require Import Bytes Str.
-From Emu.GCS Require Import Model Check Conc.
+From Emu.GCS Require Import Model Wire Check Conc.
 
 Record gcase := mkGCase {
   gc_setup : list req;
@@ -37,10 +37,11 @@ Fixpoint first_bad_out (i : N) (ms os : list outcome) : option N :=
   end.
 
 Definition check_gcase (c : gcase) : option N :=
-  let s0 := fst (run init_state (gc_setup c)) in
-  let st0 := mkGState s0 [] (map (fun rs => mkGThread rs GNew) (gc_threads c)) in
+  (* every request passes the name check first (Wire.v) *)
+  let s0 := fst (run init_state (map sanitize (gc_setup c))) in
+  let st0 := mkGState s0 [] (map (fun rs => mkGThread (map sanitize rs) GNew) (gc_threads c)) in
   let '(st1, outs) := grun st0 (gc_sched c) in
-  let finals := snd (run (g_store st1) (map fst (gc_final c))) in
+  let finals := snd (run (g_store st1) (map sanitize (map fst (gc_final c)))) in
   let dones := done_resps outs in
   let all := canon (dones ++ finals) in
   let outs' := recanon outs (firstn (length dones) all) in
